@@ -65,7 +65,8 @@ CHECKS["C15"] = dict(
 CHECKS["C16"] = dict(
     text="The real airfoil-station parsing, per-pair slices, evaluation and interpolation (all seven get_cp_* getters, both sides) run with airfoil evaluations as uninterpreted "
          "functions and interior stations at symbolic positions (orderings explored by forking); z3 compares each coefficient at each control point with the linear blend of the "
-         "bracketing airfoils at that point's own arguments; default airfoil = first listed. 2..4 stations, N<=4.",
+         "bracketing airfoils at that point's own arguments, after every getter has already been evaluated at another flap deflection and the deflection array has been rebound (as apply_control "
+         "does); default airfoil = first listed. 2..4 stations, N<=4.",
     note="Airfoil evaluations uninterpreted (airfoil_db outside /repo); control point exactly at a station excluded; CSV distributions outside.",
     technique="bounded symbolic execution with path forking over station orderings + z3 vs reference blend; replay on real code",
     ref="5/C16")
@@ -74,7 +75,8 @@ CHECKS["C07"] = dict(
     text="One inductive step per public operation (state setters in three argument shapes, control setter, add/remove aircraft, solves, distributions after a state change) from an "
          "arbitrary cache-consistent scene with symbolic base state and arguments: the real operation runs symbolically and z3 decides that the complete stored physical state the "
          "next query depends on equals that of a freshly constructed scene in the post base state, and that the solved flag only announces results of the current state. "
-         "Queries are uninterpreted functions of the stored state, so a stale cache is refutable. Histories of any length follow by induction on the invariant.",
+         "Queries are uninterpreted functions of the stored state, so a stale cache is refutable. Histories of any length follow by induction on the invariant. "
+         "With two aircraft, moving either one leaves the spatial node vectors and the constant influence tensor (incl. the cross-aircraft blocks) equal to the real full recomputation.",
     note="Analyses as operations are covered by C08's harness (same oracle); LLsolve/AeroADT stubs; <=2 aircraft; the real solver's internal iteration state is C14's subject.",
     technique="inductive-step bounded symbolic execution of the real API operations + z3 state-equality obligations vs fresh construction; replay on real code",
     ref="5/C07")
@@ -98,7 +100,8 @@ CHECKS["C03"] = dict(
 CHECKS["C13"] = dict(
     text="(Hperm) twin run of the numeric pipeline on scenes with the same aircraft added in different orders (all states symbolic): per-aircraft blocks, residual rows and every result equal up "
          "to the block permutation; (Hdec) with the cross-aircraft influence blocks set to exact zero the rows and results of each aircraft equal those of the scene holding it alone; "
-         "(Haddrem) add then remove restores exactly the stored state; (Hsel) _get_aircraft and the analyses report exactly the named aircraft.",
+         "(Haddrem) add then remove restores exactly the stored state; (Hsel) _get_aircraft and the analyses report exactly the named aircraft. Density, viscosity and speed of sound are "
+         "uninterpreted functions of the Earth-fixed position, so that every aircraft demonstrably sees the atmosphere at its own control points and origin.",
     note="The far-field limit itself (asymptotic) is outside; one-segment aircraft, N=2 each, <=3 aircraft; no impingement assumed.",
     technique="relational bounded symbolic execution (order twin with cut points; decoupling lemma) + z3; replay on real code",
     ref="5/C13")
@@ -140,7 +143,7 @@ CHECKS["C12"] = dict(
     text="Bounded parametric family: the real WingSegment / Airplane geometry code runs with symbolic semispan, sweep, dihedral, twist, linear chord, ll_offset and connection offsets "
          "(y_offset, dx, dz; children attached at tip and at root); z3 compares every node, control point, node chord, mean section chord, section-area sum, twist/dihedral/sweep at control "
          "points, the left/right mirror relation and the default reference values with the documented curve (1e-9 absolute where concrete parameters round differently). "
-         "Quarter-chord-point wings are covered by a concrete run of the real code.",
+         "Quarter-chord-point wings and the documented forms of ll_offset (array == float, array == callable, Kuchemann left/right mirror) are covered by concrete runs of the real code.",
     note="Constant sweep/dihedral/twist and linear chord only; trigonometric atoms with ranges from the angle box; with chained segments the (y,z) parameters are concrete; piecewise distributions, "
          "elliptic chord, Kuchemann, callables, CSV and swept-section unit vectors are outside.",
     technique="bounded symbolic execution of the real geometry generation with symbolic parameters + z3 vs the documented curve; replay on real code",
@@ -150,21 +153,23 @@ CHECKS["C04"] = dict(
     text="Twin run of the numeric pipeline (Earth-frame assembly, invariant flow properties, residual for an arbitrary circulation, load integration in body/stability/wind frames, per segment) on an "
          "aircraft and on its mirror image (sides swapped, CG-y negated) in the mirrored state (orientation, position, velocity, wind reflected; rates reflected as a pseudo-vector), all state "
          "symbolic: every cut array is the reflected one (moments as pseudo-vectors, rows permuted by matching reflected control points), the residual rows are equal and Fx,Fz,My,CL,CD,.. equal / "
-         "Fy,Mx,Mz,CS,.. negated in every frame. The body-frame geometry of both aircraft comes from the real constructors and is compared under the reflection (1e-12).",
+         "Fy,Mx,Mz,CS,.. negated in every frame. The body-frame geometry of both aircraft comes from the real constructors and is compared under the reflection (1e-12); the same concrete comparison (harness mirror geometry, mismatch decided by real solves) "
+         "runs on members with the Kuchemann offset (k1), a 90-degree fin with Reid corrections (g2), chained segments with winglets (g4) and control surfaces (g5).",
     note="Members m1 (right-only), g6 (left wing mounted with y_offset + tail placed from its root), thorough: + g3 (left wing, right stab with y_offset); two-sided (self-mirror) and 90-degree-fin members were not run and are outside; no control deflections (sign of antisymmetric controls: C15); "
          "geometry generation for arbitrary descriptions: C12; uniqueness of the lifting-line root outside.",
     technique="relational bounded symbolic execution (mirror twin with cut points, row permutation and atom search-alignment) + z3 polynomial identities; replay on real code",
     ref="9.6")
 
 CHECKS["C05"] = dict(
-    text="Twin runs of the numeric pipeline with run B rescaled by a symbolic positive factor: speed (velocity, wind, rates x s; circulation x s) and density (x r). Every cut array scales with its exponent, "
-         "the residual with s^2 / 1, forces and moments with s^2 / r, and every coefficient is equal, in all frames, total and per segment (z3, all states, all factors). The length-scaling clause is covered "
-         "only for the geometry generator: the real constructors run on the description scaled by 2 and 3 must store k^p x the original arrays (concrete, 1e-12 relative; Reid blending, joint length, Kuchemann "
-         "offset); a mismatch is replayed with real solves at k = 2, 0.5, 3.",
-    note="PARTIAL: the symbolic pipeline twin for length scaling (kept in checks/C05.py) did not discharge within the session and is outside the claim. Section data: uninterpreted functions of angle of attack and "
-         "flap state only (the Re/Mach-independence premise). Member r1 (one-sided swept wing with Reid corrections, N=3) for the twins; r1, r2 (Kuchemann), g2 (+ g3, g4 thorough) for the generator. "
-         "Nondimensional derivatives and root uniqueness outside.",
-    technique="relational bounded symbolic execution (scaling twins with cut points and homogeneity rules for atom alignment) + z3; concrete generator homogeneity with replay on real code for length",
+    text="Three twin runs of the numeric pipeline with run B rescaled by a symbolic positive factor: speed (velocity, wind, rates x s; circulation x s), density (x r) and length (every stored length x k, "
+         "areas x k^2, position and reference lengths x k, rates / k, circulation x k). Every cut array scales with its exponent (influence coefficients 1/k, section forces s^2, r, k^2, section moments "
+         "s^2, r, k^3), the residual with s^2 / 1 / k^2, and every coefficient is equal, in all frames, total and per segment (z3, all states, all factors). For length scaling the geometry generator is "
+         "exercised concretely: the real constructors run on the description scaled by 2 and 3 must store k^p x the original arrays (1e-12 relative; Reid blending, joint length, Kuchemann offset); a "
+         "mismatch is replayed with real solves at k = 2, 0.5, 3.",
+    note="Section data: uninterpreted functions of angle of attack and flap state only (the Re/Mach-independence premise). Twins on member r1 (one-sided swept wing with Reid corrections, N=3), thorough: + g3 and "
+         "all solver options off; generator on r1, r2 (Kuchemann), g2 (+ g3, g4 thorough). In the length twin both runs carry the geometry as float x symbol^p (unit scale of run A assumed 1) and the "
+         "1/k relations are kept in multiplied form, so no reciprocal of k enters an expression. Geometry generation at scale factors other than 2 and 3, nondimensional derivatives and root uniqueness outside.",
+    technique="relational bounded symbolic execution (scaling twins with cut points and homogeneity rules for atom alignment) + z3; concrete generator homogeneity with replay on real code",
     ref="9.6")
 
 NOT_APPLICABLE = {
